@@ -55,7 +55,7 @@ func entryOf(k kernel) string {
 	return "IndexByteNonASCII"
 }
 
-var curAVX2 bool
+var curAVX2, curPOPCNT bool
 
 const page = 4096
 const mid = 3 // accessible pages between the two guard pages
@@ -128,6 +128,7 @@ var kernels = []kernel{
 
 type viol struct {
 	AVX2      bool
+	POPCNT    bool
 	Kernel    string
 	Len, Off  int
 	Placement string
@@ -212,7 +213,7 @@ func sweep(k kernel, maxLen int) {
 		got, fault := safeCall(k, s, c)
 		lev++
 		ldist[[4]int{len(data), o & 63, int(c), k.kind}] = true
-		if *flagAsmOps != "" && k.direct && !fault && len(data) <= 200 {
+		if *flagAsmOps != "" && k.direct && !fault && len(data) <= 200 && curPOPCNT {
 			a := int(uintptr(unsafe.Pointer(unsafe.SliceData(win)))&(page-1)) + o
 			key := [5]int{k.kindBody(c), len(data), a % page, b2i(curAVX2), want}
 			asmMu.Lock()
@@ -236,7 +237,7 @@ func sweep(k kernel, maxLen int) {
 				if len(d) > 96 {
 					d = d[:96]
 				}
-				viols = append(viols, viol{curAVX2, k.name, len(data), o, placement, c, fmt.Sprintf("%x", d), got, want, fault})
+				viols = append(viols, viol{curAVX2, curPOPCNT, k.name, len(data), o, placement, c, fmt.Sprintf("%x", d), got, want, fault})
 			}
 			mu.Unlock()
 		}
@@ -351,17 +352,25 @@ func main() {
 		maxLen = 4352
 		asmCap = 100
 	}
-	// both values of the CPU feature flag the kernels test: as detected, then forced off (SSE loops at every length)
-	settings := []bool{cpu.X86.HasAVX2}
-	if cpu.X86.HasAVX2 {
-		settings = append(settings, false)
+	// the values of the CPU feature flags the kernels test: as detected; AVX2 forced off (SSE loops at every length);
+	// POPCNT forced off (the counting wrappers leave to the Go fallback)
+	type setting struct{ AVX2, POPCNT bool }
+	detected := setting{cpu.X86.HasAVX2, cpu.X86.HasPOPCNT}
+	settings := []setting{detected}
+	if detected.AVX2 {
+		settings = append(settings, setting{false, detected.POPCNT})
 	}
-	detected := cpu.X86.HasAVX2
-	for _, av := range settings {
-		cpu.X86.HasAVX2 = av
-		curAVX2 = av
+	if detected.POPCNT {
+		settings = append(settings, setting{detected.AVX2, false})
+	}
+	for _, st := range settings {
+		cpu.X86.HasAVX2, cpu.X86.HasPOPCNT = st.AVX2, st.POPCNT
+		curAVX2, curPOPCNT = st.AVX2, st.POPCNT
 		var wg sync.WaitGroup
 		for _, k := range kernels {
+			if !st.POPCNT && k.kind != 1 {
+				continue // only the counting entry points test POPCNT
+			}
 			wg.Add(1)
 			go func(k kernel) {
 				defer wg.Done()
@@ -372,17 +381,17 @@ func main() {
 		}
 		wg.Wait()
 	}
-	cpu.X86.HasAVX2 = detected
+	cpu.X86.HasAVX2, cpu.X86.HasPOPCNT = detected.AVX2, detected.POPCNT
 	if *flagAsmOps != "" {
 		os.WriteFile(*flagAsmOps, []byte(strings.Join(asmLines, "\n")+"\n"), 0o644)
 	}
 	cov := map[string]any{
 		"evaluations":         evals,
 		"distinct_nontrivial": len(distinct),
-		"rule":                fmt.Sprintf("each value of cpu.X86.HasAVX2 available on this machine x 10 kernel entry points x lengths 0..%d x placements (flush against a PROT_NONE page right/left, interior alignments) x match positions (none, each of the first/last 70, plus a second match) x needles; all 256x256 (needle,data) pairs on 8 lengths; distinct = (len, alignment mod 64, needle, kind)", maxLen),
+		"rule":                fmt.Sprintf("CPU settings (as detected; AVX2 cleared; POPCNT cleared: counting entry points) x 10 kernel entry points x lengths 0..%d x placements (flush against a PROT_NONE page right/left, interior alignments) x match positions (none, each of the first/last 70, plus a second match) x needles; all 256x256 (needle,data) pairs on 8 lengths; distinct = (len, alignment mod 64, needle, kind)", maxLen),
 		"samples":             []any{map[string]any{"kernel": "bytealg.IndexByte", "len": 33, "placement": "flush-right", "needle": "k", "match_at": 32}},
 		"max_len":             maxLen,
-		"avx2_settings":       settings,
+		"cpu_settings":       settings,
 		"asm_model_cases":     len(asmLines),
 		"violations":          len(viols),
 	}
@@ -405,7 +414,7 @@ func main() {
 		os.WriteFile(path, append([]byte("# property="+*flagProp+" kind=kernel (kernel, len, window offset, needle, data hex, got, want, fault)\n"), data...), 0o644)
 	}
 	v := viols[0]
-	fmt.Printf("DISAGREEMENT avx2=%v %s len=%d off=%d %s needle=%#x got=%d want=%d fault=%v\n", v.AVX2, v.Kernel, v.Len, v.Off, v.Placement, v.Needle, v.Got, v.Want, v.Fault)
+	fmt.Printf("DISAGREEMENT avx2=%v popcnt=%v %s len=%d off=%d %s needle=%#x got=%d want=%d fault=%v\n", v.AVX2, v.POPCNT, v.Kernel, v.Len, v.Off, v.Placement, v.Needle, v.Got, v.Want, v.Fault)
 	fmt.Printf("VIOLATION property=%s replay=%s\n", *flagProp, path)
 	os.Exit(1)
 }
